@@ -88,6 +88,7 @@ func RunCheck(id string, opts *Options) (*Report, int) {
 	solver := NewSolver(filepath.Join(opts.Scratch, "smt-"+id), timeout, 16)
 	solver.KeepSMT = opts.KeepSMT
 	ck := &Checker{E: e, Solver: solver, Prop: id, Tier: opts.Tier}
+	ReplaySolver = solver
 	var goals []*Goal
 	funcGoals := map[string]int{}
 	for _, m := range pc.Modules {
@@ -101,6 +102,7 @@ func RunCheck(id string, opts *Options) (*Report, int) {
 			return rep, 2
 		}
 		e.Prog = ld.Prog
+		e.Ld = ld
 		targets, lemmas, err := LoadContracts(e, ld, filepath.Join(opts.VerifDir, "trusted"))
 		if err != nil {
 			rep.Broken = append(rep.Broken, "contracts: "+err.Error())
